@@ -318,7 +318,7 @@ func TestC17(t *testing.T) {
 				idx := idxGen.Draw(t, "idx")
 				h := hashGen.Draw(t, "hash")
 				log := s.Bytes(rapid.SampledFrom([]int{0, 1, 1, 7, 48, 48, 300, 4096, 65536}).Draw(t, "loglen"))
-				if rapid.IntRange(0, 1499).Draw(t, "hugeLog") == 0 {
+				if s.Intn(1500) == 0 {
 					// a log of 16 MiB and a little more: two logs that agree on their first 16 MiB are different logs
 					n := 16<<20 + rapid.SampledFrom([]int{-1, 0, 1, 4096}).Draw(t, "over16MiB")
 					log = bytes.Repeat(s.Bytes(64), n/64+1)[:n]
